@@ -362,6 +362,8 @@ def correspondence(tier, seed, focus=None, histories=None, maxops=None):
         plan["maxops"] = maxops
     key = "%s-%s-%s-%d-%s-%d-%d" % (repo_fp(), machinery_fp(), tier, seed, focus or "std",
                                      plan["histories"], plan["maxops"])
+    if os.environ.get("HARNESS_FORGE_SELF") == "1":
+        key += "-forgeself"     # self-test of the forged-signer probe: never share a cache entry with a real run
     d = os.path.join(CACHE, "corr", key)
     with Lock("corr-" + key):
         done = os.path.join(d, "DONE")
